@@ -5,6 +5,7 @@
      RX framing recs          sendobs|recvobs      (every cut set: same answer)
      RK framing k recs        sendobs|recvobs
      V  framing cuts stream   recvobs
+     VW framing cuts stream   recvobs              (executed in a worker sub-process)
      VX framing stream        recvobs
      VK framing k stream      recvobs
      D  recs                  recvobs;sendafterclose=err|nil
@@ -207,6 +208,7 @@ let () =
       | ["RX"; f; recs; obs] -> report_case ln ~expected:(rt f recs) ~got:obs
       | ["RK"; f; _k; recs; obs] -> report_case ln ~expected:(rt f recs) ~got:obs
       | ["V"; f; _cuts; stream; obs] -> report_case ln ~expected:(rv f stream) ~got:obs
+      | ["VW"; f; _cuts; stream; obs] -> report_case ln ~expected:(rv f stream) ~got:obs
       | ["VX"; f; stream; obs] -> report_case ln ~expected:(rv f stream) ~got:obs
       | ["VK"; f; _k; stream; obs] -> report_case ln ~expected:(rv f stream) ~got:obs
       | ["D"; recs; obs] ->
